@@ -27,6 +27,10 @@ func init() {
 	}})
 }
 
+// c19Respell: also decode the indented and the generically re-encoded JSON (set for the
+// sub-checks whose documents are few).
+var c19Respell bool
+
 func c19Case(c *explore.Ctx, s *explore.SubStats, text string) {
 	explore.Crumb(s.Name, text)
 	d, err := parser.ParseQuery(&ast.Source{Input: text, Name: "in"})
@@ -69,6 +73,49 @@ func c19Case(c *explore.Ctx, s *explore.SubStats, text string) {
 		bad("json/"+c19Class(p0, p2), "the decoded document differs from the encoded one", p0, p2)
 		s.Outcome("differs")
 		return
+	}
+	// the same JSON value in other spellings: indented, and re-encoded by a generic JSON
+	// processor (object keys in another order) — what a store or a proxy does to it
+	if c19Respell {
+		for _, form := range []string{"indented", "generic"} {
+			var p3, st string
+			r := guarded(0, 0, func() {
+				var b []byte
+				var err error
+				if form == "indented" {
+					b, err = json.MarshalIndent(d, "", "  ")
+				} else {
+					b, err = json.Marshal(d)
+					if err == nil {
+						var generic any
+						dec := json.NewDecoder(strings.NewReader(string(b)))
+						dec.UseNumber()
+						if err = dec.Decode(&generic); err == nil {
+							b, err = json.Marshal(generic)
+						}
+					}
+				}
+				if err != nil {
+					st = "marshal: " + err.Error()
+					return
+				}
+				var d3 ast.QueryDocument
+				if err := json.Unmarshal(b, &d3); err != nil {
+					st = "unmarshal: " + err.Error()
+					return
+				}
+				p3 = projExec(&d3)
+			})
+			s.Transitions++
+			switch {
+			case r.Panicked:
+				bad("json/panic form="+form+" site="+r.Site, r.PanicVal, "", "")
+			case st != "":
+				bad("json/error form="+form+" "+strings.SplitN(st, ":", 2)[0], st, p0, "")
+			case p3 != p0:
+				bad("json/form="+form+" "+c19Class(p0, p3), "the document decoded from the "+form+" spelling of its JSON encoding differs from the encoded one", p0, p3)
+			}
+		}
 	}
 	s.Outcome("same")
 	if strings.Contains(p0, "spread{") || strings.Contains(p0, "inline{") {
@@ -217,12 +264,38 @@ func runC19(c *explore.Ctx) {
 		}
 		s.WallS = time.Since(t0).Seconds()
 	}
+	// deep nesting: a chain of n selection sets with one selection of every kind at the bottom
+	s = c.Sub("depth", "chains of 1 … 48 nested fields (and the same through inline fragments and through fragment spreads) with a field, a fragment spread and both kinds of inline fragment at the bottom; compact, indented and generically re-encoded JSON", "as above, at every nesting depth", "every chain")
+	if s != nil {
+		t0 := time.Now()
+		c19Respell = true
+		for n := 1; n <= 48; n++ {
+			if n%c.NShards != c.Shard {
+				continue
+			}
+			bottom := "x ( p : 1 ) @d ... F ... on T { y } ... @e ( r : 2 ) { z }"
+			s.States += 3
+			c19Case(c, s, "{ "+strings.Repeat("a { ", n)+bottom+strings.Repeat(" }", n)+" } fragment F on T { f }")
+			c19Case(c, s, "{ "+strings.Repeat("... on T { a { ", n)+bottom+strings.Repeat(" } }", n)+" } fragment F on T { f }")
+			var b strings.Builder
+			b.WriteString("{ ... F0 }")
+			for i := 0; i < n; i++ {
+				fmt.Fprintf(&b, " fragment F%d on T { a { ... F%d } }", i, i+1)
+			}
+			fmt.Fprintf(&b, " fragment F%d on T { %s } fragment F on T { f }", n, bottom)
+			c19Case(c, s, b.String())
+		}
+		c19Respell = false
+		s.WallS = time.Since(t0).Seconds()
+	}
 	// comments are kept in the tree (Comment fields): a comment in front of any token must not
 	// change what the document decodes to
 	s = c.Sub("comments", fmt.Sprintf("the %d profile documents and the %d decorated selections (alone and after a plain field) with a comment at every gap, one gap at a time and at every gap at once", len(gen.ExecProfiles), len(c19Items)),
 		"as above", "every rendering")
 	if s != nil {
 		t0 := time.Now()
+		c19Respell = true
+		defer func() { c19Respell = false }()
 		var docs []string
 		docs = append(docs, gen.ExecProfiles...)
 		for _, a := range c19Items {
